@@ -60,6 +60,8 @@ struct Shared {
     clock: AtomicU64,
     names: Mutex<Names>,
     t0: std::time::Instant,
+    /// port of the server's HTTP endpoint (REST API), if the scenario asked for it
+    rest_port: Option<u16>,
 }
 
 fn now_ms(sh: &Shared) -> u64 {
@@ -280,6 +282,163 @@ fn mint_token(secret: &str, claims: &Value) -> String {
     encode(&Header::new(Algorithm::HS256), claims, &EncodingKey::from_secret(secret.as_bytes())).unwrap_or_default()
 }
 
+/// one HTTP/1.1 request on a connection of its own; returns (status, body)
+async fn http(port: u16, method: &str, path: &str, token: Option<&str>, body: Option<String>) -> Option<(u16, String)> {
+    use tokio::io::AsyncReadExt;
+    let mut s = TcpStream::connect(("127.0.0.1", port)).await.ok()?;
+    let mut req = format!("{method} {path} HTTP/1.1\r\nHost: localhost\r\nConnection: close\r\nAccept: application/json\r\n");
+    if let Some(t) = token {
+        req += &format!("Authorization: Bearer {t}\r\n");
+    }
+    if let Some(b) = &body {
+        req += &format!("Content-Type: application/json\r\nContent-Length: {}\r\n", b.len());
+    }
+    req += "\r\n";
+    if let Some(b) = &body {
+        req += b;
+    }
+    s.write_all(req.as_bytes()).await.ok()?;
+    s.flush().await.ok()?;
+    let mut buf = vec![];
+    tokio::time::timeout(Duration::from_secs(10), s.read_to_end(&mut buf)).await.ok()?.ok()?;
+    let txt = String::from_utf8_lossy(&buf).to_string();
+    let (head, rest) = txt.split_once("\r\n\r\n")?;
+    let status: u16 = head.split_whitespace().nth(1)?.parse().ok()?;
+    let body = if head.to_ascii_lowercase().contains("transfer-encoding: chunked") {
+        // chunked: size line, data, ..., 0
+        let mut out = String::new();
+        let mut r = rest;
+        loop {
+            let Some((sz, tail)) = r.split_once("\r\n") else { break };
+            let n = usize::from_str_radix(sz.trim(), 16).unwrap_or(0);
+            if n == 0 || tail.len() < n {
+                break;
+            }
+            out += &tail[..n];
+            r = tail[n..].trim_start_matches("\r\n");
+        }
+        out
+    } else {
+        rest.to_owned()
+    };
+    Some((status, body))
+}
+
+fn url_key(key: &str) -> String {
+    key.bytes()
+        .map(|c| if c.is_ascii_alphanumeric() || b"/-_.~$".contains(&c) { (c as char).to_string() } else { format!("%{c:02X}") })
+        .collect()
+}
+
+/// a "session" that uses the server's REST API: every item is one HTTP request of an anonymous client
+async fn run_rest(
+    name: &str,
+    items: Vec<Value>,
+    st: &Arc<Mutex<SessState>>,
+    sh: &Arc<Shared>,
+    barriers: &Arc<HashMap<u64, Arc<Barrier>>>,
+    secret: Option<String>,
+) {
+    let Some(port) = sh.rest_port else { return };
+    let mut token: Option<String> = None;
+    let mut tokinfo: Option<(String, Value)> = None;
+    for item in items {
+        let op = s(&item, "op");
+        let mut rec = item.clone();
+        rec["c"] = json!(name);
+        rec["rest"] = json!(true);
+        match op.as_str() {
+            "barrier" => {
+                if let Some(bar) = barriers.get(&u(&item, "n")) {
+                    bar.wait().await;
+                }
+                continue;
+            }
+            "sleep" => {
+                tokio::time::sleep(Duration::from_millis(u(&item, "ms"))).await;
+                continue;
+            }
+            "auth" => {
+                // the token the following requests carry (no request of its own)
+                let all = json!({"read": ["#"], "write": ["#"], "delete": ["#"]});
+                let full = |p: &Value, exp: u64| json!({"sub": "t", "name": "t", "exp": exp, "worterbuchPrivileges": p});
+                let kind = s(&item, "kind");
+                let tok = match (&secret, item.get("claims")) {
+                    (Some(sec), Some(c)) if c.is_object() && kind == "ok" => {
+                        let mut names = sh.names.lock().await;
+                        let mut p = Map::new();
+                        for k in ["read", "write", "delete"] {
+                            let pats: Vec<Value> = c[k].as_array().cloned().unwrap_or_default().iter().map(|x| json!(names.key_in(x))).collect();
+                            p.insert(k.to_owned(), Value::Array(pats));
+                        }
+                        mint_token(sec, &full(&Value::Object(p), 4102444800))
+                    }
+                    (Some(sec), _) if kind == "expired" => mint_token(sec, &full(&all, 1000)),
+                    (_, _) if kind == "forged" => mint_token("not-the-secret", &full(&all, 4102444800)),
+                    _ => "garbage.token.value".to_owned(),
+                };
+                token = Some(tok);
+                tokinfo = Some((kind, item.get("claims").cloned().unwrap_or(Value::Null)));
+                continue;
+            }
+            _ => {}
+        }
+        let (method, path, body) = {
+            let mut names = sh.names.lock().await;
+            let root = "/api/v1";
+            match op.as_str() {
+                "get" => ("GET", format!("{root}/get/{}", url_key(&names.key_in(&item["key"]))), None),
+                "pget" => ("GET", format!("{root}/pget/{}", url_key(&names.key_in(&item["pat"]))), None),
+                "set" => ("POST", format!("{root}/set/{}", url_key(&names.key_in(&item["key"]))), Some(names.val_in(&s(&item, "val")).to_string())),
+                "publish" => {
+                    ("POST", format!("{root}/publish/{}", url_key(&names.key_in(&item["key"]))), Some(names.val_in(&s(&item, "val")).to_string()))
+                }
+                "delete" => ("DELETE", format!("{root}/delete/{}", url_key(&names.key_in(&item["key"]))), None),
+                "pdelete" => ("DELETE", format!("{root}/pdelete/{}", url_key(&names.key_in(&item["pat"]))), None),
+                "ls" => {
+                    let a = item["parent"].as_array().cloned().unwrap_or_default();
+                    if a.is_empty() { ("GET", format!("{root}/ls"), None) } else { ("GET", format!("{root}/ls/{}", url_key(&names.key_in(&item["parent"]))), None) }
+                }
+                _ => continue,
+            }
+        };
+        if let Some((kind, claims)) = &tokinfo {
+            rec["kind"] = json!(kind);
+            rec["claims"] = claims.clone();
+        }
+        rec["inv"] = json!(tick(sh));
+        rec["inv_ms"] = json!(now_ms(sh));
+        let ans = http(port, method, &path, token.as_deref(), body).await;
+        let rep = {
+            let names = sh.names.lock().await;
+            match ans {
+                None => json!({"t": "none"}),
+                Some((status, body)) if status == 200 => {
+                    let v: Value = serde_json::from_str(&body).unwrap_or(Value::Null);
+                    match op.as_str() {
+                        "get" | "delete" => json!({"t": "val", "v": names.val_out(&v)}),
+                        "pget" | "pdelete" => match serde_json::from_value::<Vec<wc::KeyValuePair>>(v.clone()) {
+                            Ok(k) => json!({"t": "kvs", "kvs": kvs_out(&names, &k)}),
+                            Err(_) => json!({"t": "unknown", "body": body}),
+                        },
+                        "ls" => match serde_json::from_value::<Vec<String>>(v.clone()) {
+                            Ok(l) => json!({"t": "list", "list": l.iter().map(|x| names.seg_out(x)).collect::<Vec<_>>()}),
+                            Err(_) => json!({"t": "unknown", "body": body}),
+                        },
+                        _ => {
+                            if v == json!("Ok") { json!({"t": "ok"}) } else { json!({"t": "unknown", "body": body}) }
+                        }
+                    }
+                }
+                Some((status, body)) => json!({"t": "herr", "status": status, "body": body.chars().take(120).collect::<String>()}),
+            }
+        };
+        rec["ret"] = json!(tick(sh));
+        rec["rep"] = rep;
+        st.lock().await.log.push(rec);
+    }
+}
+
 async fn run_session(
     name: String,
     items: Vec<Value>,
@@ -290,6 +449,10 @@ async fn run_session(
 ) -> (String, Arc<Mutex<SessState>>, Option<WrHalf>, Arc<Notify>) {
     let st = Arc::new(Mutex::new(SessState::default()));
     let notify = Arc::new(Notify::new());
+    if name.starts_with("rest") {
+        run_rest(&name, items, &st, &sh, &barriers, secret).await;
+        return (name, st, None, notify);
+    }
     st.lock().await.open_inv = tick(&sh);
     let (rd, mut wr): (RdHalf, WrHalf) = match &path {
         Target::Unix(p) => match UnixStream::connect(p).await {
@@ -463,6 +626,16 @@ async fn run_scenario(sc: Value, sock: PathBuf, meaning: Map<String, Value>) -> 
         cfg.tcp_disabled = false;
     }
     let target = if tcp { Target::Tcp(tcp_port) } else { Target::Unix(sock.clone()) };
+    // "rest": true: the HTTP endpoint is up as well; sessions named rest* use the REST API
+    let rest = b(&sc, "rest");
+    let mut rest_port = 0u16;
+    if rest {
+        rest_port = crate::util::private_port();
+        cfg.ws_endpoint = Some(worterbuch::WsEndpoint {
+            endpoint: worterbuch::Endpoint { tls: false, bind_addr: [127, 0, 0, 1].into(), port: rest_port },
+            public_addr: "localhost".to_owned(),
+        });
+    }
     let secret = sc["auth"]["secret"].as_str().map(|x| x.to_owned());
     if let Some(sec) = &secret {
         cfg.auth_token_key = Some(sec.clone());
@@ -490,13 +663,14 @@ async fn run_scenario(sc: Value, sock: PathBuf, meaning: Map<String, Value>) -> 
     // wait for the socket to appear
     for _ in 0..500 {
         // (no probe connection: it would be a session of its own)
-        let up = if tcp { tcp_listening(tcp_port) && sock.exists() } else { sock.exists() };
+        let up = (if tcp { tcp_listening(tcp_port) && sock.exists() } else { sock.exists() }) && (!rest || tcp_listening(rest_port));
         if up {
             break;
         }
         tokio::time::sleep(Duration::from_millis(5)).await;
     }
-    let sh = Arc::new(Shared { clock: AtomicU64::new(0), names: Mutex::new(Names::new(meaning)), t0: std::time::Instant::now() });
+    let sh = Arc::new(Shared { clock: AtomicU64::new(0), names: Mutex::new(Names::new(meaning)), t0: std::time::Instant::now(),
+                                rest_port: if rest { Some(rest_port) } else { None } });
     let sessions = sc["sessions"].as_object().cloned().unwrap_or_default();
     // barriers: every session that mentions barrier n takes part
     let mut counts: HashMap<u64, usize> = HashMap::new();
@@ -584,7 +758,7 @@ async fn run_scenario(sc: Value, sock: PathBuf, meaning: Map<String, Value>) -> 
     let clean = tokio::time::timeout(Duration::from_secs(10), server).await.map(|r| r.unwrap_or(false)).unwrap_or(false);
     let res = json!({"sessions": sess_out, "streams": streams, "lsstreams": lsstreams, "extra": extra, "exact": exact,
            "auth_required": secret.is_some(), "server_clean_exit": clean, "extmon": b(&sc, "extmon"),
-           "proto": if tcp { "TCP" } else { "UNIX" }});
+           "proto": if tcp { "TCP" } else { "UNIX" }, "rest": rest});
     let names = sh.names.lock().await;
     names.translate(&res)
 }
